@@ -16,11 +16,11 @@ import (
 // and spins for a varying number of iterations; the publisher publishes again
 // as soon as it sees the signal and calls Wait.
 type RaceCase struct {
-	Rounds  int  `json:"rounds"`
-	SpinMax int  `json:"spin_max"`
-	Slow    int  `json:"slow"` // Gosched calls in the second handler invocation
-	Procs   int  `json:"procs"`
-	Ctx     bool `json:"ctx,omitempty"`
+	Rounds   int  `json:"rounds"`
+	SpinMax  int  `json:"spin_max"`
+	Slow     int  `json:"slow"` // Gosched calls in the second handler invocation
+	Procs    int  `json:"procs"`
+	Ctx      bool `json:"ctx,omitempty"`
 	Shutdown bool `json:"shutdown,omitempty"` // end every 16th round with Shutdown instead of Wait
 	// Mode "" publishes a second event while the first handler finishes and
 	// waits; "last" calls Wait (after a varying spin of its own) while the
